@@ -295,7 +295,9 @@ pub fn main(args: &[String]) -> i32 {
         let ki = rng.random_range(0..keys.len());
         let key = keys[ki].clone();
         let kid = ki + 1;
-        let r = rng.random_range(0..100);
+        let hugemax = o.num("hugemax", 0u32) == 1;
+        // --hugemax: every third step is a put (of the largest sizes), the step after it a flush
+        let r = if hugemax && step % 3 == 0 { 0 } else if hugemax && step % 3 == 1 { 74 } else { rng.random_range(0..100) };
         let call_idx = calls.len() as u64;
         if r < 45 {
             // put (plain, TTL, explicit lower/higher timestamp, ghost-embedding value)
@@ -308,8 +310,8 @@ pub fn main(args: &[String]) -> i32 {
                     n = (257 + rng.random_range(0..80usize)) * 4096 - rng.random_range(0..5000usize);
                     // --hugemax: the largest value the API accepts, exactly, and its neighbours (the write side and the
                     // recovery side each have their own comparison with MAX_VALUE_SIZE)
-                    if o.num("hugemax", 0u32) == 1 && rng.random_bool(0.5) {
-                        n = 4 * 1024 * 1024 - [0usize, 0, 1, 2][rng.random_range(0..4)];
+                    if hugemax && step % 3 == 0 {
+                        n = 4 * 1024 * 1024 - [0usize, 1, 0, 2][(step / 3) % 4];
                     }
                 }
                 if edge_pct > 0 && rng.random_range(0..100) < edge_pct && key.len() < 1000 {
